@@ -130,6 +130,7 @@ theorem leaves_loop (reg : Registry) (xs : List Bytes) (x : Bytes) (xs' : List B
   intro s hg hd
   rw [writeNode]
   simp only [loopParts_plain a b inner hcf, Option.map_none]
+  rw [rloopQB_plain_fn _ _ spec (by decide)]
   have hs0 : ({ s with c := { s.c with brkD := 0 } } : St) = s := by
     cases s with | mk c w => cases c; simp at hd; subst hd; rfl
   obtain ⟨k, v, ik, hgs, hbd, hw, hstop⟩ :=
@@ -236,6 +237,7 @@ theorem outer_carries_on (reg : Registry) (xs : List Bytes) (x : Bytes) (xs' : L
   intro s hg hd
   rw [writeNode]
   simp only [loopParts_plain a b inner hcf, Option.map_none]
+  rw [rloopQB_plain_fn _ _ spec (by decide)]
   have hs0 : ({ s with c := { s.c with brkD := 0 } } : St) = s := by
     cases s with | mk c w => cases c; simp at hd; subst hd; rfl
   -- one iteration of the body
